@@ -322,6 +322,25 @@ def gaussianFilterModel (dt : String) (m : Mode) (f : Img Float) (contig : Bool)
   (gaussianFilterG (castTo dt) fIsZero m f fun ax =>
     (gaussWeights (sigmas.getD ax 1.0) (orders.getD ax 0)).map (castTo dt)).data.toList
 
+/-- the Python argument `sigma` / `order` of `gaussian_filter`: a scalar or a sequence (list, tuple) -/
+inductive SeqArg (α : Type) where
+  | scalar (v : α)
+  | seq (vs : List α)
+
+/-- `_normalize_sequence(array, value, fname)` (`internal.py`): a scalar is repeated once per dimension; a sequence must have
+one element per dimension, otherwise `ValueError` (`none`) -/
+def normalizeSeq {α : Type} (ndim : Nat) : SeqArg α → Option (List α)
+  | .scalar v => some (List.replicate ndim v)
+  | .seq vs => if vs.length = ndim then some vs else none
+
+/-- `gaussian_filter(array, sigma, order, mode)` from its Python arguments: both are normalised, then one
+`gaussian_filter1d` pass per axis with `sigmas[axis]`, `orders[axis]` (`none` = the `ValueError` of `_normalize_sequence`) -/
+def gaussianFilterPy (dt : String) (m : Mode) (f : Img Float) (sigma : SeqArg Float) (order : SeqArg Nat) :
+    Option (List Float) :=
+  match normalizeSeq f.shape.length order, normalizeSeq f.shape.length sigma with
+  | some os, some ss => some (gaussianFilterModel dt m f true ss os)
+  | _, _ => none
+
 /-- `alpha = max(0, min(alpha, 1))` as Python evaluates it (`min` / `max` return the first argument
     unless a later one is strictly smaller / larger) -/
 def clampAlpha (a : Float) : Float :=
@@ -386,7 +405,12 @@ def handle (a : Args) : String :=
   | "gaussian" =>
     let sig := a.floats "sigma"
     let ord := a.nats "order"
-    s!"model={showFloats (gaussianFilterModel dt m f true sig ord)}"
+    -- `sform=scalar` / `oform=scalar`: the caller passed a scalar (first entry); otherwise the sequence as sent
+    let sa : SeqArg Float := if a.str "sform" == "scalar" then .scalar (sig.headD 1.0) else .seq sig
+    let oa : SeqArg Nat := if a.str "oform" == "scalar" then .scalar (ord.headD 0) else .seq ord
+    match gaussianFilterPy dt m f sa oa with
+    | some r => s!"model={showFloats r}"
+    | none => "raises=ValueError"
   | k => s!"error=unknown-kind-{k}"
 
 end Mahotas.C06
